@@ -50,8 +50,8 @@ def linkUrl (srv : ServerId) (e : Entry) : Option Str :=
 def gemUrl (srv : ServerId) (queryPrefix : Option Str) (e : Entry) : Option Str :=
   if startsUrl e.selector then urlTail e.selector
   else if e.isLocal then
-    (quote e.selector).map fun u =>
-      let u := if u.isEmpty then [47] else u
+    (quote e.selector).map fun q =>
+      let u : Str := if q.isEmpty then [47] else q
       match queryPrefix with
       | some qp => if e.type == some (lit "7") then qp ++ u else u
       | none => u
